@@ -15,6 +15,7 @@ import (
 	"sync"
 	"time"
 
+	"github.com/refraction-networking/conjure/internal/verifhook"
 	"github.com/refraction-networking/conjure/pkg/core"
 	"github.com/refraction-networking/conjure/pkg/phantoms"
 	"github.com/refraction-networking/conjure/pkg/station/geoip"
@@ -834,12 +835,14 @@ func (r *RegisteredDecoys) removeRegistration(index string) *regExpireLogMsg {
 // returns the number of expired registrations total and the number marked valid
 func (r *RegisteredDecoys) removeOldRegistrations(logger *log.Logger) (int, int) {
 	var expiredRegTimeoutIndices = r.getExpiredRegistrations()
+	verifhook.Yield("sweep:collected", nil)
 
 	logger.Debugf("cleansing registrations - registrations: %d, timeouts: %d, expired: %d",
 		r.TotalRegistrations(), len(r.decoysTimeouts), len(expiredRegTimeoutIndices))
 
 	expiredValid := 0
 	for _, idx := range expiredRegTimeoutIndices {
+		verifhook.Yield("sweep:before-remove", nil)
 
 		stats := r.removeRegistration(idx)
 		if stats != nil {
